@@ -1,7 +1,7 @@
 """Backend tables of public operations and a small call graph."""
 import ast
 
-from .program import AnalysisIncomplete, BackendTable, Ext, Func, Partial, norm
+from .program import AnalysisIncomplete, BackendTable, Ext, Func, Partial, SelectedBackend, norm
 
 SLOTS = {'numpy_func': 'numpy', 'dask_func': 'dask', 'cupy_func': 'cupy', 'dask_cupy_func': 'dask_cupy'}
 
@@ -47,6 +47,8 @@ def callees(prog, f, include_args=True, backend=None):
         if isinstance(t, Func) and id(t) not in seen:
             seen.add(id(t))
             out.append(t)
+        if isinstance(t, SelectedBackend):
+            t = t.table
         if isinstance(t, BackendTable):
             for slot, v in t.entries.items():
                 if backend is not None and SLOTS.get(slot) != backend:
@@ -105,9 +107,10 @@ def backend_paths(prog, f):
     """All backend paths of public function f: via ArrayTypeFunctionMapping or isinstance chains."""
     paths = []
     for n in f.own_nodes():
-        if isinstance(n, ast.Call) and isinstance(n.func, ast.Call):
+        if isinstance(n, ast.Call) and isinstance(n.func, (ast.Call, ast.Name)):
             t = prog.resolve_callable(f, f.module, n.func)
-            if isinstance(t, BackendTable):
+            if isinstance(t, SelectedBackend):
+                t = t.table
                 for slot, expr in t.entries.items():
                     tgt = prog.resolve_callable(t.scope, f.module, expr)
                     paths.append(Path(SLOTS.get(slot, slot), tgt, n, list(n.args),
@@ -148,3 +151,45 @@ def bind_call(f, args, keywords, partial_chain=()):
     for k, v in keywords.items():
         bind[k] = v
     return bind
+
+
+def local_value(f, e, depth=0):
+    """follow single local assignments: Name -> its defining expression"""
+    while isinstance(e, ast.Name) and depth < 5:
+        vals = [v for v in f.local_assigns().get(e.id, []) if isinstance(v, ast.AST)]
+        if len(vals) != 1 or e.id in f.params:
+            break
+        e = vals[0]
+        depth += 1
+    return e
+
+
+def delegation_binding(prog, pub, target, depth=0, seen=None):
+    """{param of `target`: name of the public parameter of `pub` it receives} following helper calls whose actuals
+    are plain names (pub -> helper -> ... -> target)."""
+    if pub is target:
+        return {p: p for p in pub.params}
+    seen = seen or set()
+    if id(pub) in seen or depth > 4:
+        return None
+    seen.add(id(pub))
+    for n in pub.own_nodes():
+        if isinstance(n, ast.Call):
+            t = prog.resolve_callable(pub, pub.module, n.func)
+            while isinstance(t, Partial):
+                t = t.target
+            if isinstance(t, Func) and t is not pub:
+                inner = delegation_binding(prog, t, target, depth + 1, seen)
+                if inner is None:
+                    continue
+                bind = {}
+                for p, a in list(zip(t.params, n.args)) + [(k.arg, k.value) for k in n.keywords if k.arg]:
+                    a = local_value(pub, a)
+                    if isinstance(a, ast.Name):
+                        bind[p] = a.id
+                out = {}
+                for tp, hp in inner.items():
+                    if hp in bind:
+                        out[tp] = bind[hp]
+                return out
+    return None
